@@ -28,7 +28,7 @@ LEVEL = {
  "C19": ("partial: projection theorem on the multi-instance model; on the implementation interleaved-vs-solo and two-process runs, static scan for writable static storage, ThreadSanitizer run with per-thread instances (search)", "8/C19"),
  "C20": ("partial: narrow-table facts and build-independence of the model; each of the four builds is run against the model instance for its character width; cross-build comparison with the narrow-collision known finding", "8/C20"),
 }
-NOT_YET = {"C19": "check not built yet (work in progress)", "C20": "check not built yet (work in progress)"}
+NOT_YET = {}
 
 def main():
     checks = []
